@@ -45,7 +45,7 @@ pub fn step(s: &MState, op: &Op) -> Option<Vec<Expect>> {
         Cap | ListCap => one(Val::Num(cap as i64), post, "cap"),
         IsEmpty => one(Val::Bool(l0.is_empty()), post, "is_empty"),
         Resize => {
-            let n = op.n as usize;
+            let n = crate::ops::resize_arg(op.n);
             let mut evicted = 0i64;
             while post.lists[0].len() > n {
                 post.lists[0].pop();
